@@ -14,7 +14,8 @@ BUDGET_S = {"quick": 50, "thorough": 600}
 RULE = (
     "Hypothesis draws store contents (0-3 staged trees over a small shared content pool + loose "
     "files, transferred into a LocalHashFileDB or HashFileDB), a used set (present ids by index, "
-    "absent ids, ids carried by a foreign algorithm name), mode shallow/expanding (optionally "
+    "absent ids, ids carried by a foreign algorithm name, optionally the id of a staged directory without "
+    "files whose object is the empty listing), mode shallow/expanding (optionally "
     "with a separate cache_odb that holds the directory objects), dry/real, read_only, and in 1 of "
     "15 cases 999-2300 further unused objects (paged listing/removal). Oracle: "
     "set difference computed from a direct os.walk of the store and the raw .dir bytes. "
@@ -74,6 +75,9 @@ def cases(draw):
         "path_form": draw(st.sampled_from(["plain", "plain", "plain", "trailing-sep", "dotdot", "dot", "double-sep"])),
         # name carried by the foreign-algorithm used ids
         "foreign": draw(st.sampled_from(["sha256", "md5-family", "md5-family"])),
+        # a further staged directory WITHOUT files (its directory object is the empty listing `[]`):
+        # None / "used" (its id is in the used set) / "unused"
+        "empty_dir": draw(st.sampled_from([None, None, None, "used", "used", "unused"])),
     }
 
 
@@ -174,6 +178,13 @@ def run_case(case, ctx):
                 p = os.path.join(d, f"loosez{j}")
                 gen.write_file(p, zeros()[j])
                 _stage(odb2, p, algo)
+        empty_id = None
+        if case.get("empty_dir"):
+            src = os.path.join(d, "tempty")
+            os.makedirs(src)
+            empty_id = _stage(odb2, src, algo)
+            if cache is not None:
+                _stage(cache, src, algo)
         for i, c in enumerate(case["loose"]):
             p = os.path.join(d, f"loose{i}")
             gen.write_file(p, gen.content_bytes(c))
@@ -243,6 +254,12 @@ def run_case(case, ctx):
                 used.append(ops.hi(oid, foreign))
                 labels.add("foreign-algo")
 
+        if empty_id is not None and case["empty_dir"] == "used":
+            used.insert(len(used) // 2, ops.hi(empty_id, algo))
+            used_same.add(empty_id)
+            labels.add("used-empty-dir")
+        elif empty_id is not None:
+            labels.add("unused-empty-dir" if empty_id not in used_same else "used-empty-dir")
         keep = set(used_same)
         if not case["shallow"]:
             for oid in list(used_same):
